@@ -2,6 +2,8 @@
 package main
 
 import (
+	"bytes"
+	"github.com/goplus/llgo/internal/clang"
 	"bufio"
 	"encoding/hex"
 	"fmt"
@@ -110,6 +112,66 @@ func handle(line string) (out string) {
 			}
 		}
 		return "ok " + sb.String()
+	case f[0] == "cc" && len(f) == 9:
+		// cc <printargs> <envCCFLAGS> <envCFLAGS> <envLDFLAGS> <cfgCCFLAGS,..> <cfgCFLAGS,..> <cfgLDFLAGS,..> <args,..>
+		app, ok0 := unhex(f[1])
+		if !ok0 {
+			return "bad-op"
+		}
+		for i, n := range []string{"CCFLAGS", "CFLAGS", "LDFLAGS"} {
+			v, ok := unhex(f[2+i])
+			if !ok {
+				return "bad-op"
+			}
+			if v == "" {
+				os.Unsetenv(n)
+			} else {
+				os.Setenv(n, v)
+			}
+		}
+		lists := make([][]string, 4)
+		for i := 0; i < 4; i++ {
+			if f[5+i] == "." {
+				continue
+			}
+			for _, h := range strings.Split(f[5+i], ",") {
+				v, ok := unhex(h)
+				if !ok {
+					return "bad-op"
+				}
+				lists[i] = append(lists[i], v)
+			}
+		}
+		cfg := clang.NewConfig(app, lists[0], lists[1], lists[2], app)
+		run := func(link bool) string {
+			var buf bytes.Buffer
+			var c *clang.Cmd
+			if link {
+				c = clang.NewLinker(cfg)
+			} else {
+				c = clang.NewCompiler(cfg)
+			}
+			c.Stdout = &buf
+			var err error
+			if link {
+				err = c.Link(lists[3]...)
+			} else {
+				err = c.Compile(lists[3]...)
+			}
+			if err != nil {
+				return "err"
+			}
+			parts := strings.Split(buf.String(), "\x00")
+			if len(parts) > 0 && parts[len(parts)-1] == "" {
+				parts = parts[:len(parts)-1]
+			}
+			return hexList(parts)
+		}
+		out := "ok " + run(false) + " | " + run(true)
+		for _, n := range []string{"CCFLAGS", "CFLAGS", "LDFLAGS"} {
+			os.Unsetenv(n)
+		}
+		return out
 	case f[0] == "expand" && len(f) == 4:
 		t, ok1 := unhex(f[1])
 		d, ok2 := unhex(f[2])
